@@ -121,6 +121,24 @@ def run(chk):
     for t in range(500 if chk.tier == "quick" else 30000):
         G, nodes, es = gen_graph(rng)
         judge(G, nodes, es, cs, ps, ds, cc, pc, dc, chk, "sampled")
+        if es and rng.random() < 0.3:
+            # call HISTORY on one graph object: after the queries above, edit the graph in place without changing its node and
+            # edge counts (re-lag one edge or overwrite its numbers) and query again: results must describe the CURRENT graph
+            j = int(rng.integers(len(es)))
+            u, v, l, c, p = es[j]
+            key = [k for k, d in G[nodes[u]][nodes[v]].items() if d["lag"] == l][0]
+            if rng.random() < 0.5:
+                free = [x for x in range(0, 7) if all(not (e[0] == u and e[1] == v and e[2] == x) for e in es)]
+                l2 = int(rng.choice(free))
+                G.remove_edge(nodes[u], nodes[v], key)
+                G.add_edge(nodes[u], nodes[v], lag=l2, cmi=c, p_value=p)
+                es2 = es[:j] + es[j + 1:] + [(u, v, l2, c, p)]
+            else:
+                c2, p2 = c + 0.5, float(rng.choice([0.0, 0.5, 1.0]))
+                G[nodes[u]][nodes[v]][key]["cmi"] = c2
+                G[nodes[u]][nodes[v]][key]["p_value"] = p2
+                es2 = es[:j] + [(u, v, l, c2, p2)] + es[j + 1:]
+            judge(G, nodes, es2, cs, ps, ds, cc, pc, dc, chk, "edited_in_place_after_queries")
     lib.correspond(chk, "subnetwork_vs_model", IMPORTS, f"list ({EDGE_T}) * nat * list ({EDGE_T})", "check_subnet_case",
                    cs, ps, lambda i: ds[i], shard=600, jobs=12)
     lib.correspond(chk, "companion_vs_model", IMPORTS, f"nat * list ({EDGE_T}) * list (list Z)", "check_companion_case",
@@ -128,7 +146,7 @@ def run(chk):
     chk.rule = ("Multigraphs with unique (source,target,lag) triples: 1..6 nodes inserted in shuffled order with mixed label types "
                 "(int, str, tuple, float), lags from {0,1,2,3,5} with gaps, isolated nodes, self-loops, cmi/p-values including exact 0 and 1; "
                 "plus all (thorough) / a seeded subset of (quick) the 2^12 edge sets over 2 nodes x lags 0..2. subnetwork(G,k) for every "
-                "k in 0..K+1 and companion_matrix(G) are compared with the Coq model in the kernel and with explicit definitions in Python.")
+                "k in 0..K+1 and companion_matrix(G) -- also again after an in-place edit of the same graph object -- are compared with the Coq model in the kernel and with explicit definitions in Python.")
     chk.exhaustive = False
     if chk.tier == "thorough":
         chk.extra["exhaustive_part"] = "all 4096 edge sets over 2 nodes x lags {0,1,2}"
